@@ -46,7 +46,8 @@ inline bool pick_violation(const std::string& prop, const std::vector<Violation>
         std::string tok = token_of(v.detail);
         int k = g_known.match(prop, v.kind, tok);
         if (k >= 0) {
-            std::string key = std::string(vkind_name(v.kind)) + (tok.empty() ? "" : ":" + tok);
+            const auto& ke = g_known.entries[(size_t)k];
+            std::string key = ke.kind + (ke.token.empty() ? "" : ":" + ke.token);
             st.known[key]++;
             if (!st.known_example.count(key)) st.known_example[key] = v.detail;
             continue;
